@@ -29,6 +29,7 @@ type HarnessSpec struct {
 	NoReplay   bool   // violations of this harness are confirmed by Native only
 	Race       bool   // replay under the race detector; a reported data race reproduces the violation
 	NativeOnly bool   // not a gosym harness: run natively (confirmation of a stated assumption)
+	CrossCheck bool   // thorough tier: every query is also sent to z3 5.1 and cvc5; a disagreement is inconclusive
 	Bounds     map[string]any
 }
 
@@ -242,6 +243,9 @@ func (c *checkCtx) runHarness(h HarnessSpec, workers int) {
 		e.Cfg.MaxSteps = h.MaxSteps
 	}
 	e.Cfg.PerLabelCap = 3
+	if h.CrossCheck && c.tier == "thorough" {
+		e.Cfg.CrossCheck = []string{"z3-new", "cvc5"}
+	}
 	res, err := e.Run(modPath+"/"+h.Pkg, h.Fn)
 	if err != nil {
 		c.inconclusive(fmt.Sprintf("%s: %v", h.Fn, err))
@@ -483,6 +487,10 @@ func (c *checkCtx) writeEvidence() {
 	cov["harnesses"] = c.harnessRes
 	cov["queries"] = map[string]any{"sat": smt.StatSat, "unsat": smt.StatUnsat, "unknown": smt.StatUnknown, "errors": smt.StatErrors}
 	cov["solver_s"] = float64(smt.StatNanos) / 1e9
+	cov["cross_solver"] = map[string]any{"queries_cross_checked_on_z3-5.1_and_cvc5": smt.StatCrossChecked, "disagreements": smt.StatCrossMismatch}
+	if smt.StatCrossMismatch > 0 {
+		c.inconclusive(fmt.Sprintf("%d queries on which the solver back ends disagree", smt.StatCrossMismatch))
+	}
 	cov["solver"] = "z3 4.8.12 (z3 -in, one process per worker)"
 	cov["inconclusive"] = c.inconcl
 	cov["known_findings_matched"] = c.known
